@@ -52,7 +52,20 @@ def _computer(eng, st, args, kwargs):
         yield st, unhexlify(s.encode())
         return
     f = eng.uf('unhex', z3.StringSort(), BYTES_SORT)
-    yield st, V(f(eng.term(s, STR, st)), BYTES)
+    from binascii import unhexlify
+    from pyvc.engine import bytes_term
+
+    def push(t):
+        # a choice among string literals (an entry of a constant table selected by a symbolic key): decode each literal
+        if z3.is_string_value(t):
+            try:
+                return bytes_term(unhexlify(t.as_string().encode()))
+            except Exception:
+                return f(t)
+        if z3.is_app_of(t, z3.Z3_OP_ITE):
+            return z3.If(t.arg(0), push(t.arg(1)), push(t.arg(2)))
+        return f(t)
+    yield st, V(push(eng.term(s, STR, st)), BYTES)
 
 
 @EX.external('traceback.format_exc')
